@@ -685,16 +685,19 @@ class C13(core.Property):
         "unacked_probe_dead_after_suspicion, lone_observer_detects)",
         "indirect_probe_count = 0 or an empty shuffled candidate list (no_delegate_detected); n = 2 or every other "
         "peer DEAD in the observer's view (no_delegate_candidates)",
+        "failure_detected_full / failure_detected_within_crashes / failure_detected_row (clause 2, full): c.fix = true "
+        "(repaired _handle_indirect_ping), half < interval (ack timeout shorter than the probe interval), the action list "
+        "is pre ++ crash x cx :: post, monoRun (action times do not decrease), timelyRun delta (nothing in flight older "
+        "than delta, no partition active), punctualRun a (no probe tick and no armed timer of the observer a is skipped: "
+        "an action at time t finds t <= nextTick and t <= fire; a probe tick of a that starts a new pass is handed a "
+        "permutation — any — of the list it shuffles), orderOk (the initial probe order of a is a permutation — any — of "
+        "the other members), the observer started by cx + delta, a is up at the end; for the bound in the number of "
+        "crashes additionally 2*delta < half + susp. No hypothesis on the detector (any Detector), on the other nodes' "
+        "schedules, on delegate choices, or on the crash time",
         "Lone x: the observer's probe order is [x] and x is not DEAD; the oracle shuffle of a one-element list is that "
         "list (lone_observer_detects); tick at most one interval after crash + delta (lone_observer_within_deadline)",
     ]
     partial_theorems = {
-        "HappyModel.C13.failure_detected_partial":
-            "proved: once the ack timeout of a probe of x fires at a live node a (repaired handler) a never reports x "
-            "ALIVE again along any run that delivers nothing from x and no 'alive' update about x to a. Not proved "
-            "(stated as failure_detected_full): that a crashed x yields such a quiet run after crash+delta, and the "
-            "round-robin bound detectTicks(n,k) on the probe ticks until a probes x again; the bound is judged on "
-            "every implementation trace by Spec.detectedRow instead",
         "HappyModel.C13.failure_detected_by_phi_partial":
             "proved: a probe tick at which the detector kept for x is not available leaves x not-ALIVE, for the rest of "
             "any quiet run (both code variants). 'phi exceeds the threshold after a bounded silence' is a hypothesis on "
@@ -1153,6 +1156,13 @@ THEOREMS = [
     "HappyModel.C13.phi_monotone",
     "HappyModel.C13.failure_detected_partial",
     "HappyModel.C13.failure_detected_by_phi_partial",
+    "HappyModel.C13.crash_yields_quiet_run",
+    "HappyModel.C13.quiet_run_after_crash",
+    "HappyModel.C13.round_robin_reaches",
+    "HappyModel.C13.round_robin_between",
+    "HappyModel.C13.failure_detected_full",
+    "HappyModel.C13.failure_detected_within_crashes",
+    "HappyModel.C13.failure_detected_row",
     "HappyModel.C13.no_delegate_detected",
     "HappyModel.C13.no_delegate_candidates",
     "HappyModel.C13.unacked_probe_dead_after_suspicion",
